@@ -636,7 +636,7 @@ func parseArrayElements(raw []byte, off, count, elemOid, elemLen, elemAlign int,
 				if n < 1 || off+n > len(raw) {
 					break // no room for the 1-byte header, or the element runs past the value
 				}
-				elems = append(elems, DecodeType(raw[off+1:off+n], elemOid))
+				elems = append(elems, decodeVarlenaElem(raw[off+1:off+n], elemOid))
 				off += n
 			} else {
 				if off+4 > len(raw) {
@@ -646,12 +646,26 @@ func parseArrayElements(raw []byte, off, count, elemOid, elemLen, elemAlign int,
 				if n < 4 || off+n > len(raw) {
 					break // no room for the 4-byte header, or the element runs past the value
 				}
-				elems = append(elems, DecodeType(raw[off+4:off+n], elemOid))
+				elems = append(elems, decodeVarlenaElem(raw[off+4:off+n], elemOid))
 				off += n
 			}
 		}
 	}
 	return elems
+}
+
+// decodeVarlenaElem decodes one variable-length array element.  A zero-length payload is a value (the empty
+// string of a text-like type, the empty bytea), not NULL; DecodeType maps empty input to nil.
+func decodeVarlenaElem(data []byte, elemOid int) interface{} {
+	if len(data) == 0 {
+		switch elemOid {
+		case OidText, OidVarchar, OidBpchar, OidXML:
+			return ""
+		case OidBytea:
+			return "\\x"
+		}
+	}
+	return DecodeType(data, elemOid)
 }
 
 // ReadVarlena reads a varlena value, returning data and bytes consumed
